@@ -31,6 +31,13 @@ PAIRS = {
     "square-vs-own-complement": (SQ, SQ[::-1]),
     "square-vs-complement-of-neighbour": (SQ, [(2, 0), (4, 0), (4, 2), (2, 2)][::-1]),
     "complement-contains-touching": (SQ[::-1], [(2, 2), (4, 2), (4, 4), (2, 4)]),
+    # float coordinates: a vertex of one polygon on the interior of an edge of the other (the two crossing parameters found for
+    # its incident edges differ in their last bits)
+    "float-t-junction-outside": ([(0.0, 0.0), (0.3, 0.0), (0.3, 0.3), (0.0, 0.3)], [(0.1, 0.3), (0.25, 0.5), (0.05, 0.45)]),
+    "float-t-junction-inside": ([(0.0, 0.0), (0.3, 0.0), (0.3, 0.3), (0.0, 0.3)], [(0.1, 0.3), (0.05, 0.15), (0.2, 0.1)]),
+    "float-t-junction-through": ([(0.0, 0.0), (0.3, 0.0), (0.3, 0.3), (0.0, 0.3)], [(0.1, 0.3), (0.4, 0.1), (0.4, 0.5)]),
+    "float-t-junction-side": ([(0.1, 0.1), (0.7, 0.1), (0.7, 0.7), (0.1, 0.7)], [(0.7, 0.3), (0.9, 0.2), (0.9, 0.6)]),
+    "float-t-junction-through-side": ([(0.1, 0.1), (0.7, 0.1), (0.7, 0.7), (0.1, 0.7)], [(0.7, 0.3), (0.3, 0.9), (1.1, 0.8)]),
 }
 
 OPS = ("or", "and", "sub", "xor")
@@ -43,6 +50,9 @@ def sig(name, op):
 def build(name):
     from harness import impl
     va, vb = PAIRS[name]
+    if name.startswith("float-"):
+        # real objects get the floats; the model gets their exact dyadic values
+        return [(F(x), F(y)) for x, y in va], [(F(x), F(y)) for x, y in vb], impl.poly(va), impl.poly(vb)
     va = [(F(x), F(y)) for x, y in va]
     vb = [(F(x), F(y)) for x, y in vb]
     return va, vb, impl.poly(va), impl.poly(vb)
@@ -85,6 +95,11 @@ def evaluate(ctx, aspect, names=None):
                 ctx.check(ans == "ok", "degenerate pair: result region differs from the pointwise meaning", {**d, "witness": ans}, sig=sig(name, op))
             elif aspect == "wellformed":
                 k = impl.kind(R)
+                # what the pointwise meaning says: is A op B the empty set / the whole plane?
+                exp_empty = drv.ask(f"regioncheck {op} {ta} {tb} E") == "ok"
+                exp_whole = drv.ask(f"regioncheck {op} {ta} {tb} W") == "ok"
+                if exp_empty or exp_whole:
+                    ctx.check(k == ("Empty" if exp_empty else "Whole"), "degenerate pair: empty/whole result is not the singleton", {**d, "expected": "Empty" if exp_empty else "Whole"}, None, k, sig=sig(name, op))
                 if k in ("Empty", "Whole"):
                     continue
                 tok = core.eshape(R)
